@@ -97,6 +97,26 @@ fn observe_ct(trigger: Trigger<FromClient<CT>>, mut log: ResMut<EventLog>) {
     log.0.push(("CT", trigger.event().event.0, if t == Entity::PLACEHOLDER { None } else { Some(t) }, Some(trigger.event().client)));
 }
 
+/// Counting allocator: remembers the largest single allocation request (C06: no allocation out of proportion).
+struct CountingAlloc;
+static MAX_ALLOC: std::sync::atomic::AtomicUsize = std::sync::atomic::AtomicUsize::new(0);
+unsafe impl std::alloc::GlobalAlloc for CountingAlloc {
+    unsafe fn alloc(&self, layout: std::alloc::Layout) -> *mut u8 {
+        MAX_ALLOC.fetch_max(layout.size(), std::sync::atomic::Ordering::Relaxed);
+        unsafe { std::alloc::System.alloc(layout) }
+    }
+    unsafe fn dealloc(&self, ptr: *mut u8, layout: std::alloc::Layout) {
+        unsafe { std::alloc::System.dealloc(ptr, layout) }
+    }
+    unsafe fn realloc(&self, ptr: *mut u8, layout: std::alloc::Layout, new_size: usize) -> *mut u8 {
+        MAX_ALLOC.fetch_max(new_size, std::sync::atomic::Ordering::Relaxed);
+        unsafe { std::alloc::System.realloc(ptr, layout, new_size) }
+    }
+}
+#[global_allocator]
+static GLOBAL: CountingAlloc = CountingAlloc;
+const BIG_ALLOC: usize = 2 * 1024 * 1024;
+
 const KINDS: usize = 5; // 0 A, 1 B, 2 O (once), 3 R (entity reference), 4 P (periodic 2)
 
 #[derive(Clone, Debug)]
@@ -760,11 +780,16 @@ impl Sim {
         if tick {
             self.server.world_mut().resource_mut::<ServerTick>().increment();
         }
+        MAX_ALLOC.store(0, std::sync::atomic::Ordering::Relaxed);
         let r = catch_unwind(AssertUnwindSafe(|| self.server.update()));
         if r.is_err() {
             self.dead = Some("server".into());
             out.push("PANIC server".into());
             return;
+        }
+        let big = MAX_ALLOC.load(std::sync::atomic::Ordering::Relaxed);
+        if big > BIG_ALLOC {
+            out.push(format!("bigalloc {big}"));
         }
         let ran = self.server.world().resource::<ReplicationRan>().0;
         let t = self.server.world().resource::<ServerTick>().get();
@@ -801,6 +826,7 @@ impl Sim {
                         None => "-".into(),
                     };
                     match ent {
+                        Some(e) if self.sid(*e) == "?" => format!("{ty}:{seq}:r?{}v{}@{who}", e.index(), e.generation()),
                         Some(e) => format!("{ty}:{seq}:r{}@{who}", self.sid(*e)),
                         None => format!("{ty}:{seq}@{who}"),
                     }
